@@ -363,7 +363,91 @@ func Run(r *sim.Rng, nChains, perChain int, outDir string, wCert *sim.CaseWriter
 			}
 			a.openOrders()
 		}
+		a.repeatedDoubleSigner(r, outDir, count)
 		a.n.Close()
 		b.n.Close()
+	}
+}
+
+// repeatedDoubleSigner: validator V (staked for the root chain and the nested chain) equivocated at height hh on both. Block N carries
+// the nested committee's certificate results slashing (V, hh); the root committee's OWN results for block N name (V, hh) as well (the
+// replicas checked their list against the state committed at N-1, where the pair was not yet known). Block N+1 executes block N's own
+// results in its begin-block: the pair must be slashed at most once, and the chain must go on.
+func (c *certChain) repeatedDoubleSigner(r *sim.Rng, outDir string, count func(string)) {
+	n := c.n
+	n.Enter()
+	h := n.FSM.Height()
+	if h < 3 {
+		return
+	}
+	vs, err := n.FSM.LoadCommittee(nested, h-1)
+	if err != nil || len(vs.ValidatorSet.ValidatorSet) < 2 {
+		return
+	}
+	own, err := n.FSM.LoadCommittee(n.Config.ChainId, h-1)
+	if err != nil {
+		return
+	}
+	var V []byte
+	for _, m := range vs.ValidatorSet.ValidatorSet[1:] {
+		for _, o := range own.ValidatorSet.ValidatorSet {
+			if bytes.Equal(m.PublicKey, o.PublicKey) {
+				V = m.PublicKey
+			}
+		}
+	}
+	if V == nil {
+		return
+	}
+	pk, e := crypto.NewPublicKeyFromBytes(V)
+	if e != nil {
+		return
+	}
+	hh := uint64(0)
+	for cand := h; cand >= 1; cand-- {
+		if ok, e := n.Store.IsValidDoubleSigner(pk.Address().Bytes(), cand); e == nil && ok {
+			hh = cand
+			break
+		}
+	}
+	if hh == 0 {
+		return
+	}
+	ds := func() *lib.SlashRecipients {
+		return &lib.SlashRecipients{DoubleSigners: []*lib.DoubleSigner{{Id: V, Heights: []uint64{hh}}}}
+	}
+	tx, _ := c.build(r, &lib.CertificateResult{SlashRecipients: ds()}, c.height, -1)
+	if tx == nil {
+		return
+	}
+	c.height++
+	stakeOf := func() uint64 {
+		n.Enter()
+		v, e := n.FSM.GetValidator(crypto.NewAddress(pk.Address().Bytes()))
+		if e != nil || v == nil {
+			return 0
+		}
+		return v.StakedAmount
+	}
+	s0 := stakeOf()
+	proposer := sim.BLSKey(0).Addr
+	o1 := n.Apply(&sim.BlockSpec{Txs: [][]byte{tx}, Results: &lib.CertificateResult{
+		RewardRecipients: &lib.RewardRecipients{PaymentPercents: []*lib.PaymentPercents{{Address: proposer, Percent: 100, ChainId: n.Config.ChainId}}},
+		SlashRecipients:  ds()}})
+	if o1.Err != nil || o1.Results == nil || len(o1.Results.Failed) != 0 {
+		count("repeated-double-signer:setup-failed")
+		return
+	}
+	s1 := stakeOf()
+	o2 := n.Apply(&sim.BlockSpec{})
+	count("repeated-double-signer")
+	if o2.Err != nil {
+		sim.Direct(outDir, map[string]any{"finding": "chain-halts-after-repeated-double-signer", "kind": "no block can be applied after a block whose own certificate results name a (validator, height) pair that a transaction of the same block had already slashed",
+			"height": n.FSM.Height(), "double_sign_height": hh, "error": o2.Err.Error()})
+		return
+	}
+	if s2 := stakeOf(); s1 < s0 && s2 < s1 {
+		sim.Direct(outDir, map[string]any{"finding": "double-signer-slashed-twice-for-one-height", "kind": "the same (validator, height) pair was slashed by the nested committee's certificate and again by the root committee's",
+			"stake_before": s0, "after_first": s1, "after_second": s2})
 	}
 }
